@@ -36,7 +36,7 @@ from harness.lib import coqbuild, gcsim
 from harness.lib.coqio import Nat, to_coq
 
 LEVEL = "proof"
-THEOREMS = ["C05_norm_agree", "C05_gc_safe"]
+THEOREMS = ["C05_norm_agree", "C05_gc_safe", "C05_gc_live", "C05_no_abort", "C05_history"]
 REQ = gcsim.REQ
 TIMEOUT_MS = 24 * 3600 * 1000
 
@@ -304,7 +304,7 @@ def make_cases(ctx) -> List[Dict[str, Any]]:
     rng = ctx.rng
     cases = []
     quick = ctx.tier == "quick"
-    reps = 3 if quick else 40
+    reps = 6 if quick else 60
     maxlen = 12 if quick else 30
     n = 0
     for rep in range(reps):
